@@ -614,11 +614,11 @@ def main(tier, replay=None):
     if not proof_ok:
         run.notes.append(run.proof_problem)
 
-    ap_cases, ap_fail, ap_bad = aperture_stage(run, 2500 if thorough else 400)
+    ap_cases, ap_fail, ap_bad = aperture_stage(run, 5000 if thorough else 400)
     par_bad = parameter_passthrough(run, 200 if thorough else 30)
-    lat_cases, lat_fail, lat_bad = exact_lattice_stage(run, 1500 if thorough else 250, 3 if thorough else 2)
-    st_cases, st_fail, st_bad = stats_stage(run, 1500 if thorough else 300)
-    real_bad = energy_stage(run, 600 if thorough else 70)
+    lat_cases, lat_fail, lat_bad = exact_lattice_stage(run, 3000 if thorough else 250, 3 if thorough else 2)
+    st_cases, st_fail, st_bad = stats_stage(run, 3000 if thorough else 300)
+    real_bad = energy_stage(run, 1500 if thorough else 70)
     run.cov["tested_only"] = ["energy accounting / charge / survival invariants on lattices of all real element classes (float64, 1e-9 relative): "
                               "the Coq theorems cover them modulo the leaf contract, which is discharged in Coq only for the modelled classes",
                               "sigma_* (square root) is compared through its square",
